@@ -115,7 +115,49 @@ Qed.
 (* ------------------------------------------------------------------ *)
 (* T1b: SPAI-0                                                         *)
 
+(* After the repair of finding C06-spai0-no-conj spai0.hpp accumulates math::adjoint(a.value()) over the stored
+   entries of row i with column i.  [rget_adj r j] is that sum as coded (no law of sadj needed); if sadj is additive
+   and fixes zero it is sadj (rget r j) = the adjoint of the dense entry ([rget_adj_sadj]); for real value types
+   (sadj = id) it is the dense entry itself ([rget_adj_id]). *)
+Definition rget_adj (r : row) (j : nat) : S :=
+  fold_left (fun acc (e : nat * S) => if Nat.eqb (fst e) j then acc + sadj (snd e) else acc) r s0.
+Definition mget_adj (A : crs) (i j : nat) : S := rget_adj (nth i (rows A) []) j.
+
+Lemma rget_adj_map (r : row) j : rget_adj r j = rget (map (fun e : nat * S => (fst e, sadj (snd e))) r) j.
+Proof.
+  unfold rget_adj, rget. generalize (@s0 S). induction r as [|e r IH]; intro a; simpl; [reflexivity|].
+  apply IH.
+Qed.
+
+Lemma rget_adj_sadj (r : row) j :
+  (forall a b : S, sadj (a + b) = sadj a + sadj b) -> sadj (@s0 S) = s0 ->
+  rget_adj r j = sadj (rget r j).
+Proof.
+  intros Hadd H0. rewrite rget_adj_map. induction r as [|e r IH].
+  - simpl. rewrite rget_nil. symmetry. exact H0.
+  - cbn [map]. rewrite !(rget_cons Srt), Hadd, IH. cbn [fst snd].
+    destruct (Nat.eqb (fst e) j); [reflexivity|]. rewrite H0. reflexivity.
+Qed.
+
+Lemma rget_adj_id (r : row) j : (forall a : S, sadj a = a) -> rget_adj r j = rget r j.
+Proof.
+  intro Hid. rewrite rget_adj_map. f_equal. rewrite <- (map_id r) at 2. apply map_ext.
+  intros [c v]. cbn [fst snd]. rewrite Hid. reflexivity.
+Qed.
+
 Lemma spai0_fold i (r : row) (n d : S) :
+  fold_left (fun (nd : S * S) (e : nat * S) =>
+        let nv := sabs (snd e) in
+        (if Nat.eqb (fst e) i then fst nd + sadj (snd e) else fst nd, snd nd + nv * nv)) r (n, d)
+  = (fold_left (fun acc (e : nat * S) => if Nat.eqb (fst e) i then acc + sadj (snd e) else acc) r n,
+     fold_left (fun acc (e : nat * S) => acc + sabs (snd e) * sabs (snd e)) r d).
+Proof.
+  revert n d; induction r as [|e r IH]; intros n d; simpl; [reflexivity|].
+  rewrite IH. reflexivity.
+Qed.
+
+(* HISTORICAL: the formula of spai0.hpp before the repair (`num += v`, Relax.spai0_row_old) *)
+Lemma spai0_fold_old i (r : row) (n d : S) :
   fold_left (fun (nd : S * S) (e : nat * S) =>
         let nv := sabs (snd e) in
         (if Nat.eqb (fst e) i then fst nd + snd e else fst nd, snd nd + nv * nv)) r (n, d)
@@ -126,17 +168,50 @@ Proof.
   rewrite IH. reflexivity.
 Qed.
 
-Lemma spai0_row_eq i (r : row) : spai0_row i r = sinv (row_norm2 r) * rget r i.
+Lemma spai0_row_old_eq i (r : row) : spai0_row_old i r = sinv (row_norm2 r) * rget r i.
+Proof. unfold spai0_row_old. rewrite spai0_fold_old. reflexivity. Qed.
+
+(* as coded: no law of sadj *)
+Lemma spai0_row_eq i (r : row) : spai0_row i r = sinv (row_norm2 r) * rget_adj r i.
 Proof. unfold spai0_row. rewrite spai0_fold. reflexivity. Qed.
+
+(* sadj additive, sadj 0 = 0 (complex numbers, blocks, reals): the adjoint of the dense diagonal entry *)
+Lemma spai0_row_eq_sadj i (r : row) :
+  (forall a b : S, sadj (a + b) = sadj a + sadj b) -> sadj (@s0 S) = s0 ->
+  spai0_row i r = sinv (row_norm2 r) * sadj (rget r i).
+Proof. intros Hadd H0. rewrite spai0_row_eq, (rget_adj_sadj r i Hadd H0). reflexivity. Qed.
+
+(* real value types (sadj = id): unchanged by the repair *)
+Lemma spai0_row_eq_id i (r : row) : (forall a : S, sadj a = a) ->
+  spai0_row i r = sinv (row_norm2 r) * rget r i.
+Proof. intro Hid. rewrite spai0_row_eq, (rget_adj_id r i Hid). reflexivity. Qed.
+
+Lemma spai0_row_old_id i (r : row) : (forall a : S, sadj a = a) -> spai0_row i r = spai0_row_old i r.
+Proof. intro Hid. rewrite (spai0_row_eq_id i r Hid), spai0_row_old_eq. reflexivity. Qed.
 
 Lemma spai0_setup_length (A : crs) : length (spai0_setup A) = nrows A.
 Proof. unfold spai0_setup. rewrite map_length, indexed_length. reflexivity. Qed.
 
 Lemma spai0_setup_get (A : crs) i : i < nrows A ->
-  vget (spai0_setup A) i = sinv (row_norm2 (nth i (rows A) [])) * mget A i i.
+  vget (spai0_setup A) i = sinv (row_norm2 (nth i (rows A) [])) * mget_adj A i i.
 Proof.
   intros Hi. unfold spai0_setup. rewrite map_indexed_get by exact Hi. cbn [fst snd].
   apply spai0_row_eq.
+Qed.
+
+Lemma spai0_setup_get_sadj (A : crs) i :
+  (forall a b : S, sadj (a + b) = sadj a + sadj b) -> sadj (@s0 S) = s0 -> i < nrows A ->
+  vget (spai0_setup A) i = sinv (row_norm2 (nth i (rows A) [])) * sadj (mget A i i).
+Proof.
+  intros Hadd H0 Hi. rewrite (spai0_setup_get A i Hi). unfold mget_adj, mget.
+  rewrite (rget_adj_sadj _ i Hadd H0). reflexivity.
+Qed.
+
+Lemma spai0_setup_get_id (A : crs) i : (forall a : S, sadj a = a) -> i < nrows A ->
+  vget (spai0_setup A) i = sinv (row_norm2 (nth i (rows A) [])) * mget A i i.
+Proof.
+  intros Hid Hi. rewrite (spai0_setup_get A i Hi). unfold mget_adj, mget.
+  rewrite (rget_adj_id _ i Hid). reflexivity.
 Qed.
 
 Lemma spai0_sweep_gen (M : vec) (A : crs) (rhs x tmp : vec) i :
@@ -154,11 +229,33 @@ Theorem spai0_sweep_spec (A : crs) (rhs x tmp : vec) i :
   wf A = true ->
   length rhs = nrows A -> length x = nrows A -> length tmp = nrows A -> i < nrows A ->
   vget (fst (spai0_sweep (spai0_setup A) A rhs x tmp)) i =
-  vget x i + sinv (row_norm2 (nth i (rows A) [])) * mget A i i * (vget rhs i - Ax A x i).
+  vget x i + sinv (row_norm2 (nth i (rows A) [])) * mget_adj A i i * (vget rhs i - Ax A x i).
 Proof.
   intros Hwf Hr Hx Ht Hi.
   rewrite spai0_sweep_gen by (try apply spai0_setup_length; assumption).
   rewrite spai0_setup_get by assumption. ring.
+Qed.
+
+Theorem spai0_sweep_spec_sadj (A : crs) (rhs x tmp : vec) i :
+  (forall a b : S, sadj (a + b) = sadj a + sadj b) -> sadj (@s0 S) = s0 ->
+  wf A = true ->
+  length rhs = nrows A -> length x = nrows A -> length tmp = nrows A -> i < nrows A ->
+  vget (fst (spai0_sweep (spai0_setup A) A rhs x tmp)) i =
+  vget x i + sinv (row_norm2 (nth i (rows A) [])) * sadj (mget A i i) * (vget rhs i - Ax A x i).
+Proof.
+  intros Hadd H0 Hwf Hr Hx Ht Hi. rewrite (spai0_sweep_spec A rhs x tmp i Hwf Hr Hx Ht Hi).
+  unfold mget_adj, mget. rewrite (rget_adj_sadj _ i Hadd H0). reflexivity.
+Qed.
+
+Theorem spai0_sweep_spec_id (A : crs) (rhs x tmp : vec) i :
+  (forall a : S, sadj a = a) ->
+  wf A = true ->
+  length rhs = nrows A -> length x = nrows A -> length tmp = nrows A -> i < nrows A ->
+  vget (fst (spai0_sweep (spai0_setup A) A rhs x tmp)) i =
+  vget x i + sinv (row_norm2 (nth i (rows A) [])) * mget A i i * (vget rhs i - Ax A x i).
+Proof.
+  intros Hid Hwf Hr Hx Ht Hi. rewrite (spai0_sweep_spec A rhs x tmp i Hwf Hr Hx Ht Hi).
+  unfold mget_adj, mget. rewrite (rget_adj_id _ i Hid). reflexivity.
 Qed.
 
 (* ------------------------------------------------------------------ *)
